@@ -634,6 +634,9 @@ func TestC09(t *testing.T) {
 	all := append(append([]string{}, consistentRankers...), inconsistentRankers...)
 	core.DFS(r, core.Check[sortCase]{Name: "all-small-arrays", Gen: genSortExhaustive(r.N(7, 9), all), Exec: execSortCase, NoJournal: true}, 0)
 	core.Rapid(r, core.Check[sortCase]{Name: "random-arrays", Gen: genSortRandom(r.N(700, 5000)), Exec: execSortCase}, r.N(600, 5000))
+	core.DFS(r, core.Check[catalogSortCase]{Name: "catalog-default-sort", Gen: func(s core.Source) catalogSortCase {
+		return catalogSortCase{Keys: core.Pick(s, []string{"float64", "pointer"}, "keys"), Order: enumOrderedSubset(s, 4, "key")}
+	}, Exec: execCatalogSort, NoJournal: true}, 0)
 	core.Rapid(r, core.Check[elemSortCase]{Name: "element-types", Gen: genElemSort(24), Exec: execElemSort}, r.N(3000, 30000))
 	core.Rapid(r, core.Check[defaultSortCase]{Name: "default-ranker", Gen: func(s core.Source) defaultSortCase {
 		c := defaultSortCase{Elem: core.Pick(s, []string{"int", "string"}, "elem"), Keys: []int{}}
@@ -650,4 +653,55 @@ func TestC09(t *testing.T) {
 		}
 		return c
 	}, Exec: execDefaultSort}, r.N(500, 5000))
+}
+
+// ---------------------------------------------------------------- Catalog.SortValues() over keys that are hard to look up
+
+// Sorting a catalog with the default ranker has the effect the default sorter has on the equivalent Go array of
+// associations -- also when a key is not equal to itself (NaN: the association cannot be found again through
+// the key index) or when two different keys rank as equal (pointers to equal numbers: the values decide).
+type catalogSortCase struct {
+	Keys  string `json:"keys"` // float64 | pointer
+	Order []int  `json:"order"`
+}
+
+func execCatalogSort(c catalogSortCase, _ core.Source) core.Result {
+	if c.Keys == "float64" {
+		return catalogSort(c, []float64{math.NaN(), 2, -1, math.Float64frombits(0x7ff8000000000002), 0, 1e300}, func(k float64) string { return fmt.Sprintf("%v#%x", k, math.Float64bits(k)) })
+	}
+	return catalogSort(c, ptrKeys[:6], func(k *int) string { return fmt.Sprintf("&%d@%p", *k, k) })
+}
+
+func catalogSort[K comparable](c catalogSortCase, pool []K, show func(K) string) (res core.Result) {
+	n := lib.Notation()
+	cat := col.Catalog[K, int](n).Make()
+	for i, k := range c.Order {
+		cat.SetValue(pool[k], 10-i) // later keys hold smaller values
+	}
+	before := cat.AsArray()
+	ref := append([]col.AssociationLike[K, int]{}, before...)
+	age.Sorter[col.AssociationLike[K, int]]().Make().SortValues(ref)
+	describe := func(xs []col.AssociationLike[K, int]) string {
+		out := []string{}
+		for _, x := range xs {
+			if x == nil {
+				out = append(out, "<nil>")
+			} else {
+				out = append(out, fmt.Sprintf("%s:%d", show(x.GetKey()), x.GetValue()))
+			}
+		}
+		return fmt.Sprint(out)
+	}
+	if p, payload := lib.Call(func() { cat.SortValues() }); p {
+		res.Violation = core.Violate("C09/Catalog/default-sort-panicked", "SortValues() of the catalog %s panicked: %s", describe(before), lib.Short(payload))
+		return
+	}
+	got := cat.AsArray()
+	if describe(got) != describe(ref) {
+		res.Violation = core.Violate("C09/Catalog/default-sort-differs-from-sorter", "SortValues() turned the catalog %s into %s, the default sorter turns the same associations into %s", describe(before), describe(got), describe(ref))
+		return
+	}
+	res.NonTrivial = len(c.Order) >= 2
+	res.Classes = append(res.Classes, "keys-"+c.Keys)
+	return
 }
